@@ -150,7 +150,9 @@ fn ref2(op: &str, x: f64, y: f64, single: bool) -> Option<f64> {
         // the step function of NaN is not stated
         "heaviside" => if x.is_nan() { return None } else if x < 0.0 { 0.0 } else if x == 0.0 { y } else { 1.0 },
         "copysign" => x.copysign(y),
-        // bitwise logic and shifts on floats go through an integer cast
+        // bitwise logic and shifts on floats go through an integer cast (128 bits wide for f64; the f32 carrier is
+        // narrower, so single-precision operands beyond its range are not judged)
+        "bitwise_and" | "bitwise_or" | "bitwise_xor" | "left_shift" | "right_shift" if single && (x.abs() >= 9.2e18 || y.abs() >= 9.2e18) => return None,
         "bitwise_and" => ((x as i128) & (y as i128)) as f64, "bitwise_or" => ((x as i128) | (y as i128)) as f64,
         "bitwise_xor" => ((x as i128) ^ (y as i128)) as f64,
         "left_shift" => if !(0.0..=60.0).contains(&y) { return None } else { ((x as i128) << (y as u32)) as f64 },
